@@ -246,6 +246,22 @@ class C10(Prop):
             rng.shuffle(order)
             out.append(("random-chain", {"pt": pt, "l": [l[i] for i in order], "tz": [tz[i] for i in order]}))
 
+        # 4b. chains whose gaps and durations are whole days plus a little (timedelta keeps days, seconds, microseconds apart)
+        DAY = 86_400_000_000
+        for _ in range(ctx.pick(1500, 30000)):
+            pt = rng.choice([0, 1, 5, 60, 3600])
+            ptus = pulsetime_us(pt)
+            m = rng.randint(2, 5)
+            t = T0
+            l = []
+            for _ in range(m):
+                d = rng.choice([0, MS, 10**6, DAY, DAY + MS, 2 * DAY + 3 * 10**6])
+                l.append([None, t, d, lab(rng.choice("AAB"))])
+                g = rng.choice([1, 2, 7]) * DAY * rng.choice([0, 1, 1]) + rng.choice([0, MS, ptus // MS * MS, ptus // MS * MS + MS, 3 * 10**6])
+                t = t + d + max(g, MS)
+            rng.shuffle(l)
+            out.append(("day-scale-chain", {"pt": pt, "l": l}))
+
         # 5. random lists outside the quantifier: overlaps, ties, negative durations/pulsetimes
         for _ in range(ctx.pick(3000, 60000)):
             pt = rng.choice([0, 0.05, 0.1, 0.3, 1, -1, rng.random()])
